@@ -62,6 +62,8 @@ def scan(book):
                 a = wb.addr(ws.title, c.coordinate)
                 cells[(c.column, c.row)] = a
                 if isinstance(v, str) and v.startswith('='):
+                    if a in text or v == '=':
+                        continue            # a member of an array formula (openpyxl shows "=")
                     formulas.append(a)
                     text[a] = v
                 elif hasattr(v, 'ref') and hasattr(v, 'text'):          # openpyxl ArrayFormula
@@ -718,6 +720,136 @@ def c12_case(ctx, book, case_seed):
                               f'{book}: only the stored result of {cell} was altered, but the report also lists '
                               f'{a}, which does not depend on it', case)
                 return
+
+
+# ---------------------------------------------------------------------------------------------- C09
+
+def _load_formulas(book):
+    import openpyxl
+    with warnings.catch_warnings():
+        warnings.simplefilter('ignore')
+        return openpyxl.load_workbook(_path(book))
+
+
+def _compile_book(workbook, **kw):
+    from pycel import ExcelCompiler
+    logging.disable(logging.CRITICAL)
+    with warnings.catch_warnings():
+        warnings.simplefilter('ignore')
+        return ExcelCompiler(excel=workbook, **kw)
+
+
+@functools.lru_cache(maxsize=None)
+def _descendants(book):
+    """{plain formula cell: sorted addresses computed from it} on a model with every formula built"""
+    import networkx as nx
+    info = scan(book)
+    comp = _compile_book(_load_formulas(book))
+    for a in info['formulas']:
+        wb.outcome(comp.evaluate, a)
+    out = {}
+    for a, t in info['text'].items():
+        if t.startswith('{'):
+            continue
+        node = comp.cell_map.get(a)
+        if node is not None and node in comp.dep_graph:
+            out[a] = sorted(n.address.address for n in nx.descendants(comp.dep_graph, node))
+    return out
+
+
+def c09_case(ctx, book, case_seed):
+    """a formula cell of a shipped workbook is made to fail; the follow-up history is the oracle"""
+    from vp import plugins
+    from vp.checks import c09
+    rng = case_rng(book, case_seed)
+    info = scan(book)
+    desc = _descendants(book)
+    dynamic, unstable = _computed_reference_cells(book), _unstable(book)
+    # a failing cell that something depends on, now and then one that nothing depends on
+    feeding = [a for a, d in sorted(desc.items()) if any(':' not in x for x in d) and a not in unstable]
+    pool = feeding if feeding and rng.random() < 0.85 else [a for a in sorted(desc) if a not in unstable]
+    if not pool:
+        return
+    F = rng.choice(pool)
+    kind = rng.choice(['nosuch', 'failk-always', 'failk-once'])
+    case = {'kind': 'real-book', 'book': book, 'case_seed': case_seed, 'failing': F, 'fault': kind}
+    related = set(desc[F]) | {F}
+    dependants = [a for a in desc[F] if ':' not in a and a in info['text'] and a not in unstable]
+    sheet, coord = F.rsplit('!', 1)
+    sheet = sheet.strip("'").replace("''", "'")
+    faulty = _load_formulas(book)
+    faulty[sheet][coord] = c09.wrap(info['text'][F], kind, 'f')
+    plugins.reset()
+    comp = _compile_book(faulty, plugins='vp.plugins')
+    fresh = _compile_book(_load_formulas(book))
+    key_base = kind
+
+    def bad(key, msg):
+        ctx.violation(f'real-workbook/{key}/{key_base}', f'{book}: {msg} [failing cell {F} {info["text"][F]!r:.100}]',
+                      case)
+
+    ctx.count('real_book_cases')
+    ctx.count('real_book:' + book)
+    ctx.count('real_fault:' + kind)
+    ctx.case(('real', book, case_seed))
+    touch = rng.choice(dependants) if dependants and rng.random() < 0.5 else F
+    r = c09.call(comp.evaluate, touch)
+    if r[0] == 'v' and touch != F:
+        r = c09.call(comp.evaluate, F)      # the dependant does not read the cell on this path (IF, CHOOSE ...)
+    if r[0] == 'v':
+        bad('injected-fault-returns-a-value', f'evaluate({F!r}) = {r[1]!r} although its formula must fail')
+        return
+    if r[0] == 'other':
+        bad('first-failure-is-not-a-pycel-error', f'evaluate({touch!r}) raised {r[1]}')
+        return
+    ctx.count('real_faults_raised')
+    # retry
+    r = c09.call(comp.evaluate, F)
+    ctx.count('real_retries')
+    if r[0] == 'other':
+        bad('retry-raises-a-bare-exception', f'retry evaluate({F!r}) raised {r[1]}')
+        return
+    if r[0] == 'v':
+        want = c09.call(fresh.evaluate, F)
+        if kind != 'failk-once':
+            bad('retry-returns-a-value', f'retry evaluate({F!r}) = {r[1]!r} although it must fail again')
+            return
+        if want[0] != 'v' or not wb.same(r[1], want[1], rel=1e-6):
+            bad('value-after-transient-failure-differs',
+                f'after the one-shot fault evaluate({F!r}) = {r[1]!r}, the unmodified workbook gives {want!r}')
+            return
+    # unrelated cells
+    others = [a for a in stable_formulas(book) if a not in related and a not in dynamic]
+    for a in rng.sample(others, min(len(others), 30)):
+        got, want = c09.call(comp.evaluate, a), c09.call(fresh.evaluate, a)
+        ctx.count('real_unrelated_compares')
+        if got[0] != want[0] or (got[0] == 'v' and not wb.same(got[1], want[1], rel=1e-6)):
+            bad('unrelated-cell-differs', f'evaluate({a!r}) {info["text"].get(a)!r:.100} = {got!r:.100} after the '
+                f'failure; the unmodified workbook gives {want!r:.100}')
+            return
+    # repair
+    const = rng.choice([3, 0.5, -2, 40000])
+    for m in (comp, fresh):
+        if F not in m.cell_map:
+            c09.call(m.evaluate, F)
+        r = c09.call(m.set_value, F, const)
+        if r[0] != 'v':
+            bad('repair-set_value-raises', f'set_value({F!r}, {const!r}) raised {r[1]} on the '
+                f'{"failing" if m is comp else "unmodified"} model')
+            return
+    ctx.count('real_repairs')
+    sample = rng.sample(dependants, min(len(dependants), 25)) + rng.sample(others, min(len(others), 10)) + [F]
+    for a in sample:
+        if a in dynamic:
+            continue
+        got, want = c09.call(comp.evaluate, a), c09.call(fresh.evaluate, a)
+        ctx.count('real_repair_compares')
+        if got[0] != want[0] or (got[0] == 'v' and not wb.same(got[1], want[1], rel=1e-6)):
+            which = 'overwritten' if a == F else ('dependant' if a in related else 'unrelated')
+            bad(f'after-repair-differs/{which}', f'after overwriting {F} with {const!r} evaluate({a!r}) '
+                f'{info["text"].get(a)!r:.100} = {got!r:.100}; the unmodified workbook with the same constant gives '
+                f'{want!r:.100}')
+            return
 
 
 def run_cases(ctx, fn, books, per_shard, fraction=0.3):
